@@ -13,5 +13,5 @@ CONSTANTS
 INIT Init
 NEXT Next
 VIEW view
-INVARIANTS TypeOK InOrderPrefix NoForeignKnown EofComplete DoneComplete ReaderAllocBound
+INVARIANTS TypeOK WritesAccepted InOrderPrefix NoForeignKnown EofComplete DoneComplete ReaderAllocBound
 CHECK_DEADLOCK FALSE
